@@ -198,10 +198,11 @@ theorem foldl_max_ge (l : Box) (m0 : Nat) :
       omega
     · exact h2 s hs' n hn
 
-theorem autoIndex_fresh (d : Doc) (family : String) (s : Sty) (hs : s ∈ d.cFont ++ d.cAuto ++ d.sAuto)
+theorem autoIndex_fresh (d : Doc) (family : String) (s : Sty)
+    (hs : s ∈ (contentContexts family ++ stylesContexts family).flatMap d.box)
     (hf : s.family = family) : s.name ≠ some (.auto (autoIndex d family + 1)) := by
   intro hn
-  have hmem : s ∈ (d.cFont ++ d.cAuto ++ d.sAuto).filter (fun s => s.family = family) := by
+  have hmem : s ∈ ((contentContexts family ++ stylesContexts family).flatMap d.box).filter (fun s => s.family = family) := by
     simp only [List.mem_filter, decide_eq_true_eq]; exact ⟨hs, hf⟩
   have h2 : autoIndex d family + 1 ≤ autoIndex d family := (foldl_max_ge _ 0).2 s hmem _ hn
   omega
